@@ -85,6 +85,11 @@ class OnceTimedOperation(AbstractDenseTimeOnlineOperation):
                 if last[0] > sample_result[-1][0]:
                     sample_result.append(last)
 
+        # a sample that is superseded by another one at the same instant is not part of the signal;
+        # the operators above would take it for a segment of length zero
+        sample_result = [s for i, s in enumerate(sample_result)
+                         if i == len(sample_result) - 1 or sample_result[i + 1][0] != s[0]]
+
         return sample_result
 
     def update_final(self, sample, *args, **kargs):
